@@ -625,6 +625,14 @@ def rule_r8(prog, res) -> None:
     shared_rule(res, c07.rule_r2, "C07", "C07.R2", "C10.R8")
 
 
+def rule_r9(prog, res) -> None:
+    """two binnings are the same exactly when their edges and closed side are identical: the predicate that decides whether cached trees can be reused compares exactly (= C07.R1) — a tolerant comparison reuses trees binned with other edges, so the trees and the histograms of one run no longer apply one rule"""
+    from . import c07
+    from .common import shared_rule
+
+    shared_rule(res, c07.rule_r1, "C07", "C07.R1", "C10.R9")
+
+
 RULES = [
     ("C10.R1", rule_r1, QUICK),
     ("C10.R2", rule_r2, QUICK),
@@ -634,4 +642,5 @@ RULES = [
     ("C10.R6", rule_r6, QUICK),
     ("C10.R7", rule_r7, QUICK),
     ("C10.R8", rule_r8, QUICK),
+    ("C10.R9", rule_r9, QUICK),
 ]
